@@ -160,6 +160,13 @@ If several alignments are present in the input file and the output is a file
 						}
 					}
 				}
+				// --reverse of the whole alignment: no site remains
+				if subalign == nil {
+					if subalign, err = al.SubAlign(0, 0); err != nil {
+						io.LogError(err)
+						return
+					}
+				}
 				writeAlign(subalign, f)
 				start += subseqstep
 				if subseqstep == 0 || (start+len) > al.Length() {
